@@ -259,8 +259,13 @@ def apply_array_fault(rows, n_bins, meta, items, W, H, lo, hi, fault):
             w, h = items[q[0] - 1][0], items[q[0] - 1][1]
             rw, rh = q[4] - q[2], q[5] - q[3]
             cands = []
+            pool = {1, 2, 3, w - 1, w + 1, h - 1, h + 1, rw - 1, rw + 1,
+                    rh - 1, rh + 1, w // 2, h // 2}
+            pool |= {rnd.randint(1, max(1, min(max(W, H), 1 << 20)))
+                     for _ in range(6)}
+            others = sorted(v for v in pool if 1 <= v <= (1 << 40))
             for keep in (w, h):
-                for other in range(1, max(rw, rh) + 2):
+                for other in others:
                     for (nw, nh) in ((keep, other), (other, keep)):
                         if sorted((nw, nh)) == sorted((w, h)):
                             continue
